@@ -50,6 +50,9 @@ func verifyFunction(P *Program, S *Specs, fn *ssa.Function, ct *Contract, prop s
 	entry := ex.newMem()
 	ex.entryEpoch = entry.ep.id
 	ex.frozen = entry
+	ex.topContract = ct
+	ex.topEntry = entry
+	ex.sweepOnly = sweep && ct == nil
 	// parameters
 	for i, p := range fn.Params {
 		s := ex.D.sortOf(p.Type())
@@ -103,6 +106,13 @@ func verifyFunction(P *Program, S *Specs, fn *ssa.Function, ct *Contract, prop s
 		}
 	}
 	fr.run("true", entry)
+	if ct != nil && !sweep && len(fr.returns) > 0 {
+		var rs []string
+		for _, r := range fr.returns {
+			rs = append(rs, r.reach)
+		}
+		ex.cover("returns-reachable", or(rs...), "some return is reachable under the contract's hypotheses and the callee contracts", fn.Pos())
+	}
 	// ghost assignments at returns
 	if ct != nil && len(ct.Ghosts) > 0 {
 		for i := range fr.returns {
